@@ -893,7 +893,18 @@ async fn run() {
                 step(&mut w, &mut gates, &mut t, &json!({"ev":"Restart","k":0,"tks":tks}), "random").await;
                 continue;
             }
-            let s0 = random_step(&w, &mut rng, nv);
+            // every third run is range-heavy: the responsible range is set again and again (narrower, wider, the same) with
+            // quotes and clean-ups in between -- also while the store is at capacity (seeded/C10-9: a widened range not taken
+            // up by a full store; the figures of the next quote are then counted within the stale range)
+            let s0 = if i % 3 == 2 && rng.gen_range(0..100) < 24 {
+                match rng.gen_range(0..5) {
+                    0 | 1 => json!({"ev":"SetRange","rg":rng.gen_range(1..=w.cfg.nk + 1),"rv":rng.gen_range(0..2)}),
+                    2 | 3 => json!({"ev":"Quote","k":rng.gen_range(1..=w.cfg.nk)}),
+                    _ => json!({"ev":"Cleanup"}),
+                }
+            } else {
+                random_step(&w, &mut rng, nv)
+            };
             let s = earliest_same_file(&w, &s0);
             step(&mut w, &mut gates, &mut t, &s, "random").await;
         }
